@@ -13,9 +13,13 @@ def op_configs(tier):
         out.append(dict(name=name, **kw))
     add("permutation A", op="perm", fam="A", R=5, force=None)
     add("permutation A keep-u1", op="perm", fam="A", R=5, force=["u1"])
+    add("permutation E (all-control row)", op="perm", fam="E", R=5, force=None)
+    add("segregating E (all-control row)", op="segr", fam="E", R=5, pmax=3)
+    add("fixed-size E (all-control row)", op="fixed", fam="E", R=6, pmax=3)
+    add("balanced hold-out E (all-control row)", op="holdout", fam="E", R=5)
     add("segregating A", op="segr", fam="A", R=5, pmax=3)
     add("segregating B", op="segr", fam="B", R=4 if q else 5, pmax=3)
-    add("pairwise D", op="pair", fam="D", R=4 if q else 5)
+    add("pairwise D", op="pair", fam="D", R=4 if q else 6)
     add("merge-min C", op="mergemin", fam="C", R=6 if q else 7, pmax=6)
     add("merge-min A", op="mergemin", fam="A", R=5, pmax=4)
     add("top-bottom C", op="topbottom", fam="C", R=6 if q else 7)
